@@ -55,6 +55,14 @@ CHECKS = {
     "C13": ("spec/UintMath.tla CheckPow/CheckLog/CheckLog210/CheckRoot", "pow family validated against a^e mod 2^BITS and the exact "
             "overflow predicate; log/log2/log10/checked forms against b^k <= v < b^(k+1) and 'no panic at any width'; root against "
             "r^d <= v < (r+1)^d, with hang detection; exhaustive at BITS<=6 (root: BITS<=8, degrees 0..BITS+2)."),
+    "C16": ("spec/Codecs.tla CheckEnc16/CheckRef16/CheckFixed16", "For every integration the bytes produced, every advertised length / "
+            "upper bound and the decode of those bytes are validated by TLC against encoders written in TLA+ from each FORMAT's "
+            "definition (RLP, SCALE fixed+compact, SSZ, borsh, DER, JSON quantity, bincode, 17 postgres wire types, BigUint/BigInt, "
+            "ark-ff, primitive-types, bytemuck); the codec crates' own u64/u128 encodings are validated by the same encoders."),
+    "C17": ("spec/Codecs.tla CheckDec17", "Every decoder is run on every generated input (valid encodings of every format x "
+            "single-field mutations, hostile headers, random strings); TLC checks: no panic / hang; an accepted value is canonical and "
+            "is what the input denotes under the format; alloy-rlp, fastrlp and DER accept exactly the canonical encoding "
+            "(Ok <=> re-encoding equals the bytes consumed); asserting ark-ff constructors panic rather than yield a value."),
     "C18": ("spec/UintFloat.tla", "try_from/from/wrapping_from/saturating_from for f64 and f32 bit patterns validated by TLC against "
             "exact floor(f + 1/2) from the decoded IEEE-754 fields, NaN / negative / too-large classification; f64::from / f32::from "
             "on ascending runs of values validated against 'one of the two representable neighbours, exact if representable, "
@@ -69,8 +77,6 @@ CHECKS = {
 
 PENDING = {
     "C04": "in progress in this revision: canonical-value closure over histories, comparisons and ill-formed type probes are being built",
-    "C16": "in progress in this revision: codec encoders are being built",
-    "C17": "in progress in this revision: decoder totality checks are being built",
     "C19": "in progress in this revision: uint! literal probe programs are being built",
     "C20": "in progress in this revision: facade agreement events are being built",
 }
